@@ -30,26 +30,31 @@ Fixpoint rshape (t : rtree) : bool :=
   | RPre d _ a => pre_ok d && rshape a
   | RSuf d _ a => suf_ok d && rshape a
   | RBin d _ l r => bin_ok d && rshape l && rshape r
-  | RGroup _ a => rshape a
+  | RGroup b _ a => match b with BRound => rshape a | BCurly => false end   (* round brackets only *)
   end.
 
 Definition item_ok (it : item) : bool :=
   match it with
   | IValue d _ => atom_ok d | IPrefix d _ => pre_ok d | ISuffix d _ => suf_ok d | IBinary d _ => bin_ok d
-  | _ => true
+  | IOpen b _ | IClose b _ => bkind_eqb b BRound
   end.
 
-Lemma ref_def_ok : forall t,
+Lemma ref_def_ok : forall t, curly_tok t = false ->
   match ref_kind t with
   | KValue => atom_ok (ref_def t) | KPrefix => pre_ok (ref_def t) | KSuffix => suf_ok (ref_def t)
-  | KBinary => bin_ok (ref_def t) | _ => true
+  | KBinary => bin_ok (ref_def t) | KOpen b | KClose b => bkind_eqb b BRound | _ => true
   end = true.
-Proof. intros t. destruct t; reflexivity. Qed.
+Proof. intros t H. destruct t; try reflexivity; discriminate H. Qed.
 
-Lemma items_of_ok : forall toks i prev sp its, items_of toks i prev sp = Some its -> forallb item_ok its = true.
+Lemma items_of_ok : forall toks i prev sp its, round_only toks = true ->
+  items_of toks i prev sp = Some its -> forallb item_ok its = true.
 Proof.
-  induction toks as [|t r IH]; intros i prev sp its H; cbn [items_of] in H; [injection H as <-; reflexivity|].
-  pose proof (ref_def_ok t) as Hd.
+  induction toks as [|t r IH]; intros i prev sp its Hro H; cbn [items_of] in H; [injection H as <-; reflexivity|].
+  cbn [round_only forallb] in Hro. apply andb_true_iff in Hro. destruct Hro as [Hct Hro]. apply negb_true_iff in Hct.
+  fold (round_only r) in Hro.
+  assert (IH' : forall i prev sp its, items_of r i prev sp = Some its -> forallb item_ok its = true)
+    by (intros; eapply IH; eauto). clear IH. rename IH' into IH.
+  pose proof (ref_def_ok t Hct) as Hd.
   destruct (ref_kind t) eqn:Hk; try discriminate H; try (eapply IH; exact H).
   all: destruct (items_of r (S i) _ false) as [rest|] eqn:Hr; [|discriminate H]; injection H as <-;
        rewrite forallb_app; cbn [forallb item_ok]; rewrite (IH _ _ _ _ Hr);
@@ -64,7 +69,7 @@ Lemma climb_shape : forall f q acc its t rest,
 Proof.
   induction f as [|f IH]; intros q acc its t rest Hits Hacc H; [discriminate|].
   cbn [climb] in H. destruct acc as [lhs|].
-  - destruct its as [|[d i|d i|d i|d i|i|i] r]; try (injection H as <- <-; auto).
+  - destruct its as [|[d i|d i|d i|d i|b i|b i] r]; try (injection H as <- <-; auto).
     + cbn [forallb item_ok] in Hits. apply andb_true_iff in Hits. destruct Hits as [Hd Hr].
       destruct (inside d q); [|injection H as <- <-; split; [exact Hacc | cbn; rewrite Hd, Hr; reflexivity]].
       eapply IH; [exact Hr | | exact H]. cbn. rewrite Hd, Hacc. reflexivity.
@@ -74,7 +79,7 @@ Proof.
       destruct (climb f p None r) as [[rhs r']|] eqn:E; [|discriminate].
       destruct (IH p None r rhs r' Hr I E) as [A B].
       eapply IH; [exact B | | exact H]. cbn. rewrite Hd, Hacc, A. reflexivity.
-  - destruct its as [|[d i|d i|d i|d i|i|i] r]; try discriminate.
+  - destruct its as [|[d i|d i|d i|d i|b i|b i] r]; try discriminate.
     + cbn [forallb item_ok] in Hits. apply andb_true_iff in Hits. destruct Hits as [Hd Hr].
       eapply IH; [exact Hr | | exact H]. exact Hd.
     + cbn [forallb item_ok] in Hits. apply andb_true_iff in Hits. destruct Hits as [Hd Hr].
@@ -82,17 +87,19 @@ Proof.
       destruct (climb f p None r) as [[arg r']|] eqn:E; [|discriminate].
       destruct (IH p None r arg r' Hr I E) as [A B].
       eapply IH; [exact B | | exact H]. cbn. rewrite Hd, A. reflexivity.
-    + cbn [forallb item_ok] in Hits.
-      destruct (climb f INF None r) as [[inner [|[d0 i0|d0 i0|d0 i0|d0 i0|i0|i0] r']]|] eqn:E; try discriminate.
+    + cbn [forallb item_ok] in Hits. apply andb_true_iff in Hits. destruct Hits as [Hb Hits].
+      destruct (climb f INF None r) as [[inner [|[d0 i0|d0 i0|d0 i0|d0 i0|b0 i0|b0 i0] r']]|] eqn:E; try discriminate.
+      destruct (bkind_eqb b b0); [|discriminate].
       destruct (IH INF None r inner _ Hits I E) as [A B]. cbn [forallb item_ok] in B.
-      eapply IH; [exact B | | exact H]. exact A.
+      apply andb_true_iff in B. destruct B as [_ B].
+      eapply IH; [exact B | | exact H]. destruct b; [exact A|discriminate Hb].
 Qed.
 
-Lemma pratt_shape : forall toks R, pratt toks = Some R -> rshape R = true.
+Lemma pratt_shape : forall toks R, round_only toks = true -> pratt toks = Some R -> rshape R = true.
 Proof.
-  intros toks R H. unfold pratt in H. destruct (items_of toks 0 None false) as [its|] eqn:Hi; [|discriminate].
+  intros toks R Hro H. unfold pratt in H. destruct (items_of toks 0 None false) as [its|] eqn:Hi; [|discriminate].
   destruct (climb (4 * length its + 8) INF None its) as [[t [|c rc]]|] eqn:Hc; try discriminate. injection H as <-.
-  exact (proj1 (climb_shape _ INF None its t [] (items_of_ok _ _ _ _ _ Hi) I Hc)).
+  exact (proj1 (climb_shape _ INF None its t [] (items_of_ok _ _ _ _ _ Hro Hi) I Hc)).
 Qed.
 
 Lemma rshape_shift : forall a t, rshape (shift_rtree a t) = rshape t.
@@ -107,13 +114,13 @@ Proof. intros d H. destruct d; try exact H; reflexivity. Qed.
 
 Lemma chain_elems_img_ne : forall t, rshape (erase t) = true -> chain_elems (img t) <> [].
 Proof.
-  induction t as [i d k|i d k a IH|i d k a IH|i d k l IHl r IHr|i k a IH]; intros Hs; cbn [erase rshape img chain_elems] in *.
+  induction t as [i d k|i d k a IH|i d k a IH|i d k l IHl r IHr|b i k a IH]; intros Hs; cbn [erase rshape img chain_elems] in *.
   - apply atom_ok_norm in Hs. unfold atom_ok in Hs. destruct (kind_of d); try discriminate Hs. discriminate.
   - apply andb_true_iff in Hs. destruct Hs as [Hd _]. unfold pre_ok in Hd. destruct (kind_of d); try discriminate Hd; discriminate.
   - apply andb_true_iff in Hs. destruct Hs as [Hd _]. unfold suf_ok in Hd. destruct (kind_of d); try discriminate Hd; discriminate.
   - apply andb_true_iff in Hs. destruct Hs as [Hs Hr]. apply andb_true_iff in Hs. destruct Hs as [_ Hl].
     destruct (kind_of d); try discriminate. intros E. apply app_eq_nil in E. destruct E as [E _]. exact (IHl Hl E).
-  - discriminate.
+  - destruct b; discriminate.
 Qed.
 
 Lemma forallb_rev : forall A (f : A -> bool) l, forallb f (rev l) = forallb f l.
@@ -211,7 +218,7 @@ Qed.
 
 Theorem bal_img : forall t, P_bal t.
 Proof.
-  induction t as [i d k|i d k a IH|i d k a IH|i d k l IHl r IHr|i k a IH];
+  induction t as [i d k|i d k a IH|i d k a IH|i d k l IHl r IHr|b i k a IH];
     intros Hs lst cond tail Hlst Hcl Hn Hearly Hre Hda; cbn [erase rshape img] in *.
   - (* a value *)
     apply atom_ok_norm in Hs. unfold atom_ok in Hs. destruct (kind_of d) eqn:Hk; try discriminate Hs.
@@ -323,6 +330,7 @@ Proof.
           rewrite (child_plain l false IHl Hsl Hnl Hel Hrl Hdl), (child_plain r false IHr Hsr Hnr Her Hrr Hdr); reflexivity
         | intros d' ->; apply count_other; [exact Hlst | rewrite Hk; discriminate] ].
   - (* a group *)
+    destruct b; [|discriminate Hs]. cbn [bdef] in *.
     destruct (at_heads_inv _ _ _ _ _ _ Hn) as [_ [_ Hn']]. destruct (at_heads_inv _ _ _ _ _ _ Hearly) as [_ [_ He']].
     cbn [reapply_pending drops_arms opt_b kind_of orb] in Hre, Hda, Hn', He'.
     apply concl_plain; auto.
@@ -337,7 +345,7 @@ Definition rootrank (t : rtree) : option N := match t with RBin d _ _ _ => ref_r
 Fixpoint leftok (t : rtree) : bool :=
   match t with
   | RAtom _ _ => true
-  | RPre _ _ a | RSuf _ _ a | RGroup _ a => leftok a
+  | RPre _ _ a | RSuf _ _ a | RGroup _ _ a => leftok a
   | RBin d _ l r =>
     (match rootrank l with
      | Some p => match ref_rank d with Some pd => N.leb p pd | None => false end
@@ -355,17 +363,17 @@ Lemma climb_stops : forall f q acc its t rest, climb f q acc its = Some (t, rest
 Proof.
   induction f as [|f IH]; intros q acc its t rest H; [discriminate|].
   cbn [climb] in H. destruct acc as [lhs|].
-  - destruct its as [|[d i|d i|d i|d i|i|i] r]; try (injection H as <- <-; exact I).
+  - destruct its as [|[d i|d i|d i|d i|b i|b i] r]; try (injection H as <- <-; exact I).
     + destruct (inside d q) eqn:E; [eapply IH; exact H | injection H as <- <-; exact E].
     + destruct (inside d q) eqn:E; [|injection H as <- <-; exact E].
       destruct (ref_rank d) as [p|]; [|discriminate].
       destruct (climb f p None r) as [[rhs r']|]; [|discriminate]. eapply IH; exact H.
-  - destruct its as [|[d i|d i|d i|d i|i|i] r]; try discriminate.
+  - destruct its as [|[d i|d i|d i|d i|b i|b i] r]; try discriminate.
     + eapply IH; exact H.
     + destruct (ref_rank d) as [p|]; [|discriminate].
       destruct (climb f p None r) as [[arg r']|]; [|discriminate]. eapply IH; exact H.
-    + destruct (climb f INF None r) as [[inner [|[d0 i0|d0 i0|d0 i0|d0 i0|i0|i0] r']]|]; try discriminate.
-      eapply IH; exact H.
+    + destruct (climb f INF None r) as [[inner [|[d0 i0|d0 i0|d0 i0|d0 i0|b0 i0|b0 i0] r']]|]; try discriminate.
+      destruct (bkind_eqb b b0); [|discriminate]. eapply IH; exact H.
 Qed.
 
 (* the operator that may extend [lhs] under limit [q] binds no tighter than the root of [lhs] *)
@@ -394,7 +402,7 @@ Proof.
   induction f as [|f IH]; intros q acc its t rest H Hacc; [discriminate|].
   cbn [climb] in H. destruct acc as [lhs|].
   - destruct Hacc as [Hl Hb].
-    destruct its as [|[d i|d i|d i|d i|i|i] r]; try (injection H as <- <-; exact Hl).
+    destruct its as [|[d i|d i|d i|d i|b i|b i] r]; try (injection H as <- <-; exact Hl).
     + (* suffix *)
       destruct (inside d q) eqn:E; [|injection H as <- <-; exact Hl].
       eapply IH; [exact H|]. split; [exact Hl | exact I].
@@ -408,15 +416,16 @@ Proof.
         unfold lbound in Hb. destruct (rootrank lhs) as [pl|]; [|reflexivity].
         destruct (Hb E) as [pd [Hpd Hle]]. rewrite Hp in Hpd. injection Hpd as <-. apply N.leb_le. exact Hle.
       * unfold lbound. cbn [rootrank]. rewrite Hp.
-        destruct r' as [|[d' i'|d' i'|d' i'|d' i'|i'|i'] r'']; try exact I.
+        destruct r' as [|[d' i'|d' i'|d' i'|d' i'|b' i'|b' i'] r'']; try exact I.
         intros E'. cbn [stops] in Hst. exact (not_inside_ge d' p q E' Hst).
-  - destruct its as [|[d i|d i|d i|d i|i|i] r]; try discriminate.
+  - destruct its as [|[d i|d i|d i|d i|b i|b i] r]; try discriminate.
     + eapply IH; [exact H|]. split; [reflexivity | exact I].
     + destruct (ref_rank d) as [p|]; [|discriminate].
       destruct (climb f p None r) as [[arg r']|] eqn:Er; [|discriminate].
       pose proof (IH _ _ _ _ _ Er I) as Harg.
       eapply IH; [exact H|]. split; [exact Harg | exact I].
-    + destruct (climb f INF None r) as [[inner [|[d0 i0|d0 i0|d0 i0|d0 i0|i0|i0] r']]|] eqn:Er; try discriminate.
+    + destruct (climb f INF None r) as [[inner [|[d0 i0|d0 i0|d0 i0|d0 i0|b0 i0|b0 i0] r']]|] eqn:Er; try discriminate.
+      destruct (bkind_eqb b b0); [|discriminate].
       pose proof (IH _ _ _ _ _ Er I) as Hin.
       eapply IH; [exact H|]. split; [exact Hin | exact I].
 Qed.
@@ -430,7 +439,7 @@ Qed.
 
 Lemma leftok_shift : forall a t, leftok (shift_rtree a t) = leftok t.
 Proof.
-  intros a. induction t as [d k|d k x IH|d k x IH|d k l IHl r IHr|k x IH]; cbn [shift_rtree leftok]; auto.
+  intros a. induction t as [d k|d k x IH|d k x IH|d k l IHl r IHr|b k x IH]; cbn [shift_rtree leftok]; auto.
   rewrite IHl, IHr. destruct l; reflexivity.
 Qed.
 
@@ -440,17 +449,17 @@ Proof. intros d i H. destruct d; cbn in H; try discriminate H; auto. Qed.
 Lemma registers_root_rank : forall t, rshape (erase t) = true -> registers (img t) = true ->
   exists p, rootrank (erase t) = Some p /\ (p = 700%N \/ p = 800%N).
 Proof.
-  intros t Hs H. destruct t as [i d k|i d k a|i d k a|i d k l r|i k a]; cbn [img registers erase rshape rootrank] in *.
+  intros t Hs H. destruct t as [i d k|i d k a|i d k a|i d k l r|b i k a]; cbn [img registers erase rshape rootrank] in *.
   - apply atom_ok_norm in Hs. unfold atom_ok in Hs. destruct (kind_of d); discriminate.
   - apply andb_true_iff in Hs. destruct Hs as [Hd _]. unfold pre_ok in Hd. destruct (kind_of d); discriminate.
   - apply andb_true_iff in Hs. destruct Hs as [Hd _]. unfold suf_ok in Hd. destruct (kind_of d); discriminate.
   - destruct d; cbn in H; try discriminate H; eexists; split; try reflexivity; auto.
-  - discriminate.
+  - destruct b; discriminate.
 Qed.
 
 Lemma leftok_drops : forall t, rshape (erase t) = true -> leftok (erase t) = true -> drops_arms (img t) = false.
 Proof.
-  induction t as [i d k|i d k a IH|i d k a IH|i d k l IHl r IHr|i k a IH]; intros Hs Hl; cbn [erase rshape leftok img drops_arms opt_b] in *.
+  induction t as [i d k|i d k a IH|i d k a IH|i d k l IHl r IHr|b i k a IH]; intros Hs Hl; cbn [erase rshape leftok img drops_arms opt_b] in *.
   - apply atom_ok_norm in Hs. unfold atom_ok in Hs. destruct (kind_of d); try discriminate Hs. reflexivity.
   - apply andb_true_iff in Hs. destruct Hs as [Hd Hsa]. rewrite (IH Hsa Hl).
     unfold pre_ok in Hd. destruct (kind_of d); try discriminate Hd; reflexivity.
@@ -463,19 +472,19 @@ Proof.
     destruct (registers (img l)) eqn:Hreg; [|reflexivity]. exfalso.
     destruct (registers_root_rank l Hsl Hreg) as [p [Hp Hv]]. rewrite Hp in Hroot.
     destruct (logical_rank d i0 Hk) as [E|E]; rewrite E in Hroot; apply N.leb_le in Hroot; destruct Hv; subst p; discriminate Hroot || (cbv in Hroot; congruence).
-  - exact (IH Hs Hl).
+  - destruct b; [|discriminate Hs]. cbn [bdef kind_of]. exact (IH Hs Hl).
 Qed.
 
 (* ---- the theorem ---- *)
-Theorem operator_expression_balanced : forall toks R, pratt toks = Some R ->
+Theorem operator_expression_balanced : forall toks R, round_only toks = true -> pratt toks = Some R ->
   exists root nodes t,
     parse toks = Ok (root, nodes) /\ Compile.tree_of nodes root = Some t /\
     drops_arms t = false /\
     (has_chain_no_else t = false -> has_chain_early_else t = false -> has_reapply_pending t = false ->
      balanced t = true).
 Proof.
-  intros toks R H. destruct (pratt_tree_of toks R H) as (Tn & ns & Hp & Ht & _ & _ & E).
-  pose proof (pratt_shape toks R H) as Hs. pose proof (pratt_leftok toks R H) as Hl.
+  intros toks R Hro H. destruct (pratt_tree_of toks R H) as (Tn & ns & Hp & Ht & _ & _ & E).
+  pose proof (pratt_shape toks R Hro H) as Hs. pose proof (pratt_leftok toks R H) as Hl.
   rewrite E, rshape_shift in Hs. rewrite E, leftok_shift in Hl.
   pose proof (leftok_drops Tn Hs Hl) as Hd.
   exists (nid Tn), ns, (img Tn). split; [exact Hp|]. split; [exact Ht|]. split; [exact Hd|].
